@@ -8,26 +8,39 @@ Import ListNotations.
 
 Definition err (code : Z) : sx := SL [SZ (-1); SZ code].
 
+(* Each area contributes a partial dispatcher [Z -> list sx -> option sx];
+   command codes: core integrals 1-99, others see notes/AGENT_GUIDE.md. *)
+Definition run_core (K : Fops Qc) (c : Z) (args : list sx) : option sx :=
+  match c, args with
+  (* 1: Overlap.construct_array_contraction(sa, sb) -> [Ma][La][Mb][Lb] *)
+  | 1%Z, [sa; sb] => Some (enc4 (overlap_block K (dec_shell sa) (dec_shell sb)))
+  (* 2: overlap_integral(basis, transform) *)
+  | 2%Z, [basis; t] =>
+      Some (enc2 (overlap_integral K (dec_list dec_shell basis) (dec_opt dec_mat t)))
+  (* 3: overlap_integral_asymmetric(b1, b2, t1, t2) *)
+  | 3%Z, [b1; b2; t1; t2] =>
+      Some (enc2 (overlap_integral_asymm K (dec_list dec_shell b1) (dec_list dec_shell b2)
+                (dec_opt dec_mat t1) (dec_opt dec_mat t2)))
+  (* 4: generate_transformation(l, comps, labels, "left") *)
+  | 4%Z, [l; comps; labels] =>
+      Some (enc2 (sph_transform K (dec_nat l) (dec_list dec_comp comps) (dec_list dec_label labels)))
+  (* 5: _compute_multipole_moment_integrals(C, orders, sa, sb) -> [D][Ma][La][Mb][Lb] *)
+  | 5%Z, [SL [cx; cy; cz]; orders; sa; sb] =>
+      Some (enc5 (mm_block K (dec_q cx) (dec_q cy) (dec_q cz) (dec_list dec_comp orders)
+                (dec_shell sa) (dec_shell sb)))
+  | _, _ => None
+  end.
+
+Definition dispatchers : list (Fops Qc -> Z -> list sx -> option sx) :=
+  [run_core].
+
 Definition run (K : Fops Qc) (cmd : sx) : sx :=
   match cmd with
   | SL (SZ c :: args) =>
-    match c, args with
-    (* 1: Overlap.construct_array_contraction(sa, sb) -> [Ma][La][Mb][Lb] *)
-    | 1%Z, [sa; sb] => enc4 (overlap_block K (dec_shell sa) (dec_shell sb))
-    (* 2: overlap_integral(basis, transform) *)
-    | 2%Z, [basis; t] => enc2 (overlap_integral K (dec_list dec_shell basis) (dec_opt dec_mat t))
-    (* 3: overlap_integral_asymmetric(b1, b2, t1, t2) *)
-    | 3%Z, [b1; b2; t1; t2] =>
-        enc2 (overlap_integral_asymm K (dec_list dec_shell b1) (dec_list dec_shell b2)
-                (dec_opt dec_mat t1) (dec_opt dec_mat t2))
-    (* 4: generate_transformation(l, comps, labels, "left") *)
-    | 4%Z, [l; comps; labels] =>
-        enc2 (sph_transform K (dec_nat l) (dec_list dec_comp comps) (dec_list dec_label labels))
-    (* 5: _compute_multipole_moment_integrals(C, orders, sa, sb) -> [D][Ma][La][Mb][Lb] *)
-    | 5%Z, [SL [cx; cy; cz]; orders; sa; sb] =>
-        enc5 (mm_block K (dec_q cx) (dec_q cy) (dec_q cz) (dec_list dec_comp orders)
-                (dec_shell sa) (dec_shell sb))
-    | _, _ => err 2
-    end
+      match fold_left (fun acc d => match acc with Some r => Some r | None => d K c args end)
+                      dispatchers None with
+      | Some r => r
+      | None => err 2
+      end
   | _ => err 1
   end.
